@@ -1,6 +1,7 @@
 package rules
 
 import (
+	"go/ast"
 	"go/token"
 	"go/types"
 
@@ -282,6 +283,12 @@ func runC05(c *core.Ctx) {
 	c.Rule("R7", "sender recover path: release the flag, then Close with the exception (a write-side transport failure closes the channel)", 1)
 	runSenderRecover(c, e, "R7")
 	ruleFailedSenderReleasesCloser(c, e, "R7")
+
+	// ---- R8: "the transport is closed" means the socket: the wrappers' Close reaches the connection (C17-R6),
+	// and the Close call that took effect can finish: the sender it waits for can always dequeue (C02-R7)
+	c.Rule("R8", "transport.Close reaches the connection on every path; the sender the closer waits for can always make progress (shared with C17-R6, C02-R7)", 2)
+	importObligations(c, runC17, "R8", func(o *core.Obligation) bool { return o.Rule == "R6" })
+	importObligations(c, runC02, "R8", func(o *core.Obligation) bool { return o.Rule == "R7" })
 }
 
 func runC05R4to6(c *core.Ctx, e *ev) {
@@ -324,6 +331,25 @@ func runC05R4to6(c *core.Ctx, e *ev) {
 	c.OK("R5", "read/single-site", p.InstrPos(reads[0].in), "one site")
 	readInstr, readFn := liftToTopLevel(p, reads[0].in, reads[0].fn)
 	c.FuncsSeen[p.QName(readFn)] = true
+	// an unexported step function called from exactly one place is part of its caller's sequence: when the two
+	// deliveries ended up in different functions, lift the one that is a step of the other
+	liftStep := func(in ssa.Instruction, fn, want *ssa.Function) (ssa.Instruction, *ssa.Function) {
+		for d := 0; d < 4 && fn != nil && fn != want; d++ {
+			us := usesOf(p, fn)
+			if len(us) != 1 || us[0].kind != "call" || fn.Name() == "" || ast.IsExported(fn.Name()) || us[0].in.Parent() == fn {
+				break
+			}
+			in, fn = liftToTopLevel(p, us[0].in, us[0].in.Parent())
+		}
+		return in, fn
+	}
+	if actInstr != nil && readInstr != nil && loopFn != readFn {
+		if a2, f2 := liftStep(actInstr, loopFn, readFn); f2 == readFn {
+			actInstr, loopFn = a2, f2
+		} else if r2, f3 := liftStep(readInstr, readFn, loopFn); f3 == loopFn {
+			readInstr, readFn = r2, f3
+		}
+	}
 	if actInstr == nil || readInstr == nil || loopFn != readFn {
 		c.Instance("R4")
 		c.Bad("R4", "active/before-reads", p.InstrPos(act[0].in), "the active event and the read loop are not in the same goroutine function (active is no longer ordered before the first read)")
@@ -382,15 +408,22 @@ func runC05R4to6(c *core.Ctx, e *ev) {
 					return
 				}
 				callers++
-				// preceded by a panicking guard on the pipeline's channel field being nil
-				core.AllInstrs(fn, func(x ssa.Instruction) {
-					if xc := core.CallCommon(x); xc != nil && xc.StaticCallee() != nil && xc.StaticCallee().Name() == "AssertIf" && core.Dominates(x, in) {
-						guarded = true
+				// the call happens only when no channel is attached yet: `attached != nil` is known false here
+				// (an assertion or an if/panic on the pipeline's channel field; a weaker test such as
+				// "attached != nil && attached != this one" does not establish it)
+				for _, cm := range falseAt(p, in) {
+					if cm.Op != token.NEQ {
+						continue
 					}
-					if _, ok := x.(*ssa.Panic); ok {
-						guarded = true
+					for _, side := range [][2]ssa.Value{{cm.X, cm.Y}, {cm.Y, cm.X}} {
+						if !core.IsNilConst(side[1]) {
+							continue
+						}
+						if f, _ := core.FieldOf(side[0]); f != nil && types.Identical(f.Type(), r.ChannelIface) {
+							guarded = true
+						}
 					}
-				})
+				}
 			})
 		}
 		c.Instance("R5")
@@ -606,6 +639,15 @@ func (e *ev) checkLatch(c *core.Ctx, loopFn *ssa.Function, actIn ssa.Instruction
 			default:
 				if cc := core.CallCommon(ref); cc != nil && cc.Value == v {
 					calls = append(calls, callSite{ref, ref.Parent()})
+				} else if cc != nil && !cc.IsInvoke() {
+					// handed on to a step function of the repository
+					if g := cc.StaticCallee(); g != nil && p.InRepo(g) && g.Blocks != nil {
+						for i, a := range cc.Args {
+							if a == v && i < len(g.Params) {
+								visit(g.Params[i], g)
+							}
+						}
+					}
 				}
 			}
 		}
